@@ -944,6 +944,7 @@ func C02(c *vf.Ctx) {
 			{Small: false, Soft: true, Threads: thr3},
 			{Small: true, Soft: true, Points: []string{"conn.created", "conn.meta.written"}, Threads: thr3},
 			{Small: true, Soft: false, Threads: thr3},
+			{Small: true, Soft: true, Points: []string{"manager.reader.dispatch", "manager.acquire.got"}, Threads: thr3}, // late packets meet a reader preempted before its dispatch
 		},
 		scen:    []string{"invoke-overtaken-after-cancel", "metadata-then-abandoned", "queued-call-cancelled"},
 		kinds:   []string{"start", "hstep", "relw", "deliver", "cancel", "point"},
